@@ -63,9 +63,21 @@ class DF:
         return self.w
 
 
-TYPES = {c.__name__: c for c in (DA, DB, DC, DD, DE, DF)}
+@labtech.task
+class DG(DB):
+    """A task type that inherits its first parameters from another task type."""
+    extra: int = 0
+    more: Any = None
+
+    def run(self) -> str:
+        return self.label
+
+
+TYPES = {c.__name__: c for c in (DA, DB, DC, DD, DE, DF, DG)}
 # task-holding fields and scalar fields (with a default value to use) per type
-TASK_FIELDS = {'DA': [], 'DB': ['a'], 'DC': ['items'], 'DD': ['one_or_many', 'other'], 'DE': ['left', 'right'], 'DF': ['src']}
+TASK_FIELDS = {'DA': [], 'DB': ['a'], 'DC': ['items'], 'DD': ['one_or_many', 'other'], 'DE': ['left', 'right'], 'DF': ['src'], 'DG': ['a', 'more']}
 ALL_FIELDS = {'DA': ['x'], 'DB': ['a', 'label'], 'DC': ['items', 'n'], 'DD': ['one_or_many', 'other'],
-              'DE': ['left', 'right', 'flag'], 'DF': ['src', 'w', 'tag']}
-RETURNS = {'DA': 'int', 'DB': 'str', 'DC': 'dict', 'DD': None, 'DE': 'list', 'DF': 'float'}
+              'DE': ['left', 'right', 'flag'], 'DF': ['src', 'w', 'tag'], 'DG': ['a', 'label', 'extra', 'more']}
+# a string-valued parameter per type (its value varies per node, so task hashes depend on the interpreter's hash seed)
+STR_FIELD = {'DB': 'label', 'DF': 'tag', 'DG': 'label'}
+RETURNS = {'DA': 'int', 'DB': 'str', 'DC': 'dict', 'DD': None, 'DE': 'list', 'DF': 'float', 'DG': 'str'}
